@@ -6,6 +6,7 @@ import plumpy.workchains
 
 CONFIG = {
     'user_havoc': 'all',
+    'foreign_shortcut': True,
     'protected_classes': ['plumpy.events.ProcessCallback', 'plumpy.base.state_machine.StateMachine', 'plumpy.base.state_machine.State'],
     'user_await_interruptible': True,
 }
@@ -37,3 +38,23 @@ def callback_run(self):
     raises(BaseException, len(calls()) > n0)
     replay('called_with_its_arguments', 'failure_injection')
     replay('raises_only_declared', 'failure_injection')
+
+
+@contract('plumpy.processes.Process.call_soon', props=['C03', 'C18'])
+def call_soon(self, callback, *args, **kwargs):
+    """a callback handed to call_soon is wrapped so that it runs through _run_task of THIS process (hence inside its scope,
+    and its failure is routed to the process by ProcessCallback.run): the handle holds (self, self._run_task, (callback, *args),
+    kwargs) and its run() coroutine is given to the loop"""
+    requires(isinstance(self, Process) and is_foreign(self._loop))
+    n0 = len(calls())
+    given = seq(args)
+    nkw = dlen(kwargs)
+    modifies(user_effects)
+    ensures('wrapped_for_this_process', type_is(ret, ProcessCallback) and fresh(ret) and ret._process is self
+            and bound_method(ret._callback, self, '_run_task') and ret._cancelled is False)
+    ensures('callback_first_then_its_arguments', len(seq(ret._args)) == len(given) + 1 and seq(ret._args)[0] is callback
+            and seq(ret._args) == [callback] + given and is_dict(ret._kwargs))
+    ensures('handed_to_the_loop', len(calls()) == n0 + 1 and calls()[n0].recv is old(self._loop) and calls()[n0].meth == 'create_task')
+    raises(Exception, len(calls()) == n0 + 1)
+    replay('wrapped_for_this_process', 'failure_injection')
+    replay('callback_first_then_its_arguments', 'failure_injection')
